@@ -239,11 +239,11 @@ impl Message {
         }
     }
 
-    // The whole function, with the `Custom` arm restricted to tags the raw byte agrees with the var-int on (see the FINDING below)
+    // unconditional: whatever the message, exactly its wire format is appended (and nothing already written changes)
     /*@extract yrs/src/sync/protocol.rs | impl Encode for Message | fn encode | label=msg_encode
     @sig
         ensures
-            (self matches Message::Custom(tag, _) ==> *tag < 128) ==> final(encoder).out() == old(encoder).out() + enc_msg(self.v()),
+            final(encoder).out() == old(encoder).out() + enc_msg(self.v()),
     @end
         proof {
             let o = old(encoder).out();
@@ -253,12 +253,7 @@ impl Message {
                 MsgV::Auth(Some(r)) => { assert(o + enc_uint(2) + enc_uint(0) + enc_buf(utf8(r)) =~= o + enc_msg(self.v())); },
                 MsgV::Auth(None) => { assert(o + enc_uint(2) + enc_uint(1) =~= o + enc_msg(self.v())); },
                 MsgV::AwarenessQuery => {},
-                MsgV::Custom(tag, data) => {
-                    if tag < 128 {
-                        assert(enc_uint(tag as nat) =~= seq![tag]);
-                        assert(o.push(tag) + enc_buf(data) =~= o + enc_msg(self.v()));
-                    }
-                },
+                MsgV::Custom(tag, data) => { assert(o + enc_uint(tag as nat) + enc_buf(data) =~= o + enc_msg(self.v())); },
             }
         }
     @*/
@@ -298,10 +293,10 @@ impl Message {
     @*/
 }
 
-// FINDING (tags::msg_encode_custom::post, C09): `Message::Custom(tag, data)` is WRITTEN with `write_u8(*tag)` (a raw byte) but
-// READ with `read_var::<u8>()` (an unsigned var-int).  The two agree only for tag < 128.  Concrete: Message::Custom(128, vec![])
-// encodes to [0x80, 0x00]; the decoder reads the var-int 0x80 0x00 = 0 = MSG_SYNC and then fails with EndOfBuffer (with a
-// non-empty payload it mis-parses the payload as a SyncMessage).  The arm below must append the var-int tag.
+// FINDING (fixed in /repo 6df1004; obligation tags::msg_encode_custom::post, C09): `Message::Custom(tag, data)` was WRITTEN with
+// `write_u8(*tag)` (a raw byte) but READ with `read_var::<u8>()` (an unsigned var-int); the two agree only for tag < 128.
+// Concrete: Message::Custom(128, vec![1, 2, 3]) encoded to [128, 3, 1, 2, 3], which the decoder reads as tag (128 & 127) | 3 << 7
+// and fails.  The arm is kept as a separately named obligation (canary `custom_tag_raw_byte` re-introduces the defect).
 /*@extract yrs/src/sync/protocol.rs | impl Encode for Message | region encode | arm=Message::Custom(tag, data) => | label=msg_encode_custom
 @header
     fn msg_encode_custom<E: Encoder>(tag: &u8, data: &Vec<u8>, encoder: &mut E)
@@ -311,15 +306,12 @@ impl Message {
 @end
     proof {
         let o = old(encoder).out();
-        if *tag < 128 {
-            assert(enc_uint(*tag as nat) =~= seq![*tag]);
-        }
         assert(o + enc_uint(*tag as nat) + enc_buf(data@) =~= o + enc_msg(MsgV::Custom(*tag, data@)));
     }
 @*/
 
 /// DOMAIN of the Message round trip: payloads shorter than 4 GiB; a custom tag must not collide with the built-in kinds
-/// 0..=3 (a `Custom(2, ..)` is read back as `Auth`) and — see the FINDING — must be below 128 for the CURRENT encoder
+/// 0..=3 (a `Custom(2, ..)` is read back as `Auth`)
 pub open spec fn msg_dom(m: MsgV) -> bool {
     match m {
         MsgV::Sync(s) => sync_dom(s),
